@@ -17,6 +17,7 @@ type DEntry struct {
 	MtimeNs int64
 	Link    string
 	Body    []byte
+	Sparse  bool // declared a sparse file by its pax records: content and acceptance are unspecified
 }
 
 // Node is a node of the model tree.
@@ -135,6 +136,19 @@ func (m *UWModel) Apply(e DEntry) string {
 	}
 	if hasDD {
 		return ClNameDotDot
+	}
+	if e.Sparse {
+		// nothing says whether a sparse file is expanded, refused or made with holes
+		cur := m.Root
+		for _, s := range path {
+			if cur = cur.Kids[s]; cur == nil {
+				break
+			}
+		}
+		if cur != nil {
+			cur.Unspec = true
+		}
+		return ClConflict
 	}
 	// supported types first: an unrepresentable type must fail wherever it is
 	switch e.Type {
